@@ -131,6 +131,17 @@ func ReadBack(e *core.Env, res *wprog.Result, image []byte) {
 		e.Fail("catalog", nil, "Catalog.Pages %v read back as %+v", res.PagesRef, meta.Catalog)
 		return
 	}
+	wantMeta := ""
+	if cfg.Meta > 0 {
+		wantMeta = wprog.MetaTitle
+	}
+	if got := wprog.MetadataTitle(meta.Catalog.Metadata); got != wantMeta {
+		e.Fail("catalog", nil, "document metadata (meta=%d): title %q written, %q read back", cfg.Meta, wantMeta, got)
+		return
+	}
+	if cfg.Meta > 0 {
+		e.Probe("document metadata round trip")
+	}
 	if d := infoDiff(res.Info, meta.Info); d != "" {
 		e.Fail("info", nil, "Info: %s", d)
 		return
